@@ -173,6 +173,21 @@ pub fn gen_headers(t: &mut Tape) -> Vec<(String, Vec<u8>)> {
                     .collect();
                 return (name, v);
             }
+            if t.chance(1, 10) {
+                // A value that resembles the protocol syntax the crate itself writes: a fragment
+                // of one of its own string literals (a delimiter, a header name, a unit), bare or
+                // embedded in other text.
+                let ss = crate::dict::strings();
+                if !ss.is_empty() {
+                    let frag = &ss[t.draw(ss.len() as u32) as usize];
+                    let pre = ["", "", "x", "nightly", "--", "-"][t.draw(6) as usize];
+                    let post = ["", "", "7", "--", "-", "; q"][t.draw(6) as usize];
+                    let v = format!("{pre}{frag}{post}");
+                    if HeaderValue::from_str(&v).is_ok() && !v.trim().is_empty() && v.trim() == v {
+                        return (name, v.into_bytes());
+                    }
+                }
+            }
             (name, t.pick(HVALUES).as_bytes().to_vec())
         })
         .collect()
